@@ -149,6 +149,12 @@ THOROUGH_SCALE = {"C01": 400, "C02": 300, "C03": 500, "C04": 150, "C05": 800, "C
 
 COVERAGE = set(PROPERTIES)
 
+# properties with deep_* families: a stage in an UNOPTIMISED build ("plain" profile: no inlining, no tail-call
+# elimination) whose worker threads have the stack of an ordinary spawned thread (2 MiB) instead of the
+# harness' 256 MiB: recursion that grows with the input (per token, per op, per anchor) exhausts it, the
+# process dies and the driver attributes the death to the case that was in flight
+SMALLSTACK = {"C01", "C04", "C05", "C06", "C12", "C13"}
+
 
 def stages_for(prop, tier):
     st = _stages_for(prop, tier)
@@ -179,6 +185,9 @@ def _stages_for(prop, tier):
             st.append(dict(nounicode, tier="quick"))
         if prop == "C06":
             st.append(dict(nobytes, tier="quick"))
+        if prop in SMALLSTACK:
+            st.append({"name": "smallstack", "kind": "native", "profile": "plain", "tier": "quick", "budget_s": 240, "watchdog_s": 900, "scale": 100,
+                       "extra_args": ["--stack-mib", "2", "--only-prefix", "deep_"]})
         return st
     st = [
         {"name": "checked", "kind": "native", "profile": "checked", "tier": "thorough", "budget_s": 1500, "watchdog_s": 3600},
@@ -192,6 +201,9 @@ def _stages_for(prop, tier):
         st.append(dict(nounicode, tier="thorough"))
     if prop == "C06":
         st.append(dict(nobytes, tier="thorough"))
+    if prop in SMALLSTACK:
+        st.append({"name": "smallstack", "kind": "native", "profile": "plain", "tier": "thorough", "budget_s": 900, "watchdog_s": 3600, "scale": 100,
+                   "extra_args": ["--stack-mib", "2", "--only-prefix", "deep_"]})
     if prop in MIRI:
         st.append({"name": "miri", "kind": "miri", "budget_s": 900, "watchdog_s": 1800})
     if prop in COVERAGE:
